@@ -60,6 +60,10 @@ def gen_cases(tier, seed):
         yield "siblings", {"seed": rand_bytes(rng, 32).hex(), "idx": [rng.choice(IDX) if rng.random() < 0.6 else rng.getrandbits(32) for _ in range(6)], "lz": i % 2 == 0}
     for i in range(10 if q else 150):
         yield "both_networks", {"seed": rand_bytes(rng, 32).hex(), "path": [rng.choice(IDX[:5]) for _ in range(rng.randrange(1, 4))], "first_testnet": i % 2 == 0}
+    # (wallet.hd.derive_child is not driven: it raises TypeError for every input - str keys reach a bytes-only Base58 decoder,
+    #  bytes keys fail its str prefix test - so it derives nothing; observed, not claimed, see DESIGN.md section 7)
+    for i in range(6 if q else 60):
+        yield "hd_root", {"salt": rng.getrandbits(40), "pp": ["", "TREZOR", "é"][i % 3]}
     for i in range(40 if q else 800):
         yield "ckd", {"k": hex(rng.randrange(1, secp.N)), "c": rand_bytes(rng, 32).hex(), "i": rng.choice([0, 1, 2, HARD - 1, rng.randrange(HARD)])}
     for i in range(10 if q else 100):
@@ -73,7 +77,7 @@ def gen_cases(tier, seed):
 
 def required(tier):
     return {"path.decided": 100, "path.composition": 60, "path.public_tail": 40, "path.hardened_from_pub_refused": 20,
-            "ckd.commute": 30, "siblings.children": 60, "networks.derivations": 25, "ser.class.zero_fingerprint_at_depth>0": 3, "siblings.class.parent_key_leading_zero": 4, "ckd.hardened_refused": 8, "ser.roundtrip": 50, "ser.form.int": 10, "reject.decided": 400,
+            "ckd.commute": 30, "siblings.children": 60, "networks.derivations": 25, "hd_root.decided": 5, "ser.class.zero_fingerprint_at_depth>0": 3, "siblings.class.parent_key_leading_zero": 4, "ckd.hardened_refused": 8, "ser.roundtrip": 50, "ser.form.int": 10, "reject.decided": 400,
             "vectors.invalid": 16}
 
 
@@ -206,6 +210,62 @@ def run_case(kind, params, ctx):
                 raise
             except Exception:
                 ctx.count("path.hardened_from_pub_refused")
+        return
+    if kind == "derive_child":
+        seed = bytes.fromhex(params["seed"])
+        pre, i = params["pre"], params["i"]
+        try:
+            ref = rb32.derive(seed, pre + [i])
+        except ValueError:
+            return
+        parent_prv, parent_pub = ref[-2]
+        ctx.count("derive_child.decided")
+        ctx.nontrivial()
+        try:
+            got = hd.derive_child(parent_prv.decode(), i).encode()
+            if got != ref[-1][0]:
+                ctx.violation(f"derive_child/private-wrong/{'hardened' if i >= HARD else 'normal'}/{_which_field(got, ref[-1][0])}", f"derive_child(xprv at depth {len(pre)}, {i}) = {got!r}, reference {ref[-1][0]!r}")
+        except ContractViolation:
+            raise
+        except Exception as e:
+            ctx.violation(f"derive_child/private-raises/{'hardened' if i >= HARD else 'normal'}", f"{type(e).__name__}: {e}")
+        try:
+            gotp = hd.derive_child(parent_pub.decode(), i).encode()
+            if i >= HARD:
+                ctx.violation("hardened-from-public/derive_child-accepted", f"derive_child(xpub, {i}) returned {gotp!r}")
+            elif gotp != ref[-1][1]:
+                ctx.violation(f"derive_child/public-wrong/{_which_field(gotp, ref[-1][1])}", f"derive_child(xpub at depth {len(pre)}, {i}) = {gotp!r}, reference {ref[-1][1]!r}")
+        except ContractViolation:
+            raise
+        except Exception as e:
+            if i < HARD:
+                ctx.violation("derive_child/public-raises", f"{type(e).__name__}: {e}")
+            else:
+                ctx.count("path.hardened_from_pub_refused")
+        return
+    if kind == "hd_root":
+        from ..ref import bip39ref as r39
+        from .. import env
+        rng = rng_for("C09hd", params["salt"])
+        W, ok = r39.load_words(env.REPO)
+        mn = " ".join(r39.mnemonic(rand_bytes(rng, rng.choice([16, 24, 32])), W))
+        seedb, _ = r39.seed(mn, params["pp"])
+        try:
+            k, c = rb32.master(seedb)
+        except ValueError:
+            return
+        ctx.count("hd_root.decided")
+        ctx.nontrivial()
+        try:
+            w = hd.HD.from_mnemonic(mn, passphrase=params["pp"])
+            xprv, xpub = w.get_root_keys()
+        except ContractViolation:
+            raise
+        except Exception as e:
+            ctx.violation("hd-root/raises", f"{type(e).__name__}: {e}")
+            return
+        if xprv.encode() != rb32.ser(k, c, 0, b"\x00" * 4, 0) or xpub.encode() != rb32.ser(secp.pub(k), c, 0, b"\x00" * 4, 0):
+            ctx.violation("hd-root/wrong", f"HD.from_mnemonic root keys differ from BIP39+BIP32 reference for {mn[:30]}…")
         return
     if kind == "both_networks":
         seed = bytes.fromhex(params["seed"])
